@@ -351,6 +351,76 @@ type WrapCase struct {
 	Rcpts    []KeyRef `json:"rcpts"`
 	Routing  []KeyRef `json:"routing"`
 	ViaMed   bool     `json:"via_mediator"`
+	// Accept is the destination's list of media type profiles (empty: [Profile]); Default the sender framework's
+	// default profile (empty: Profile).  Profile is the profile the dispatcher is expected to select from them.
+	Accept  []string `json:"accept,omitempty"`
+	Default string   `json:"default,omitempty"`
+}
+
+var mtpCoq = map[string]string{
+	transport.MediaTypeV1PlaintextPayload:                    "M_V1Plain",
+	transport.MediaTypeRFC0019EncryptedEnvelope:              "M_RFC19",
+	transport.MediaTypeAIP2RFC0019Profile:                    "M_AIP2RFC19",
+	transport.MediaTypeProfileDIDCommAIP1:                    "M_AIP1",
+	transport.LegacyDIDCommV1Profile:                         "M_Indy",
+	transport.MediaTypeV2EncryptedEnvelopeV1PlaintextPayload: "M_V2EncV1Plain",
+	transport.MediaTypeAIP2RFC0587Profile:                    "M_AIP2RFC587",
+	transport.MediaTypeV2EncryptedEnvelope:                   "M_V2Enc",
+	transport.MediaTypeV2PlaintextPayload:                    "M_V2Plain",
+	transport.MediaTypeDIDCommV2Profile:                      "M_DIDCommV2",
+}
+
+func coqMtp(s string) string {
+	if c, ok := mtpCoq[s]; ok {
+		return c
+	}
+
+	return "M_Other"
+}
+
+// effective states the documented priority independently of the code's loop: a DIDComm v2 media type wins wherever it
+// stands (the first one); else the last of {v2 envelope with v1 payload, aip2;env=rfc587}; else the first v1/legacy
+// one; else the framework default.
+func effective(accept []string, dflt string) string {
+	for _, a := range accept {
+		switch a {
+		case transport.MediaTypeV2EncryptedEnvelope, transport.MediaTypeV2PlaintextPayload, transport.MediaTypeDIDCommV2Profile:
+			return a
+		}
+	}
+
+	for i := len(accept) - 1; i >= 0; i-- {
+		switch accept[i] {
+		case transport.MediaTypeV2EncryptedEnvelopeV1PlaintextPayload, transport.MediaTypeAIP2RFC0587Profile:
+			return accept[i]
+		}
+	}
+
+	for _, a := range accept {
+		switch a {
+		case transport.MediaTypeV1PlaintextPayload, transport.MediaTypeRFC0019EncryptedEnvelope, transport.MediaTypeAIP2RFC0019Profile,
+			transport.MediaTypeProfileDIDCommAIP1, transport.LegacyDIDCommV1Profile:
+			return a
+		}
+	}
+
+	return dflt
+}
+
+func (c WrapCase) accept() []string {
+	if len(c.Accept) == 0 {
+		return []string{c.Profile}
+	}
+
+	return c.Accept
+}
+
+func (c WrapCase) dflt() string {
+	if c.Default == "" {
+		return c.Profile
+	}
+
+	return c.Default
 }
 
 func (p *pool) key(r KeyRef) *env.Key { return p.keys[r.KT][r.Party][r.Slot] }
@@ -474,7 +544,7 @@ func (p *pool) runWrap(kind string, c WrapCase, tr *hx.Trace) {
 
 	o, err := outbound.NewOutbound(&obProv{&mockprovider.Provider{PackagerValue: pk, KMSValue: p.w.Parties[sparty].KMS,
 		VDRegistryValue: p.vdr, StorageProviderValue: mem.NewProvider(), ProtocolStateStorageProviderValue: mem.NewProvider(),
-		MediaTypeProfilesValue: []string{c.Profile}}, []transport.OutboundTransport{cap}})
+		MediaTypeProfilesValue: []string{c.dflt()}}, []transport.OutboundTransport{cap}})
 	if err != nil {
 		panic(err)
 	}
@@ -482,11 +552,11 @@ func (p *pool) runWrap(kind string, c WrapCase, tr *hx.Trace) {
 	dest := &service.Destination{RecipientKeys: rcptRefs}
 	if c.V2EP {
 		dest.ServiceEndpoint = commonmodel.NewDIDCommV2Endpoint([]commonmodel.DIDCommV2Endpoint{{
-			URI: "http://dest", RoutingKeys: routeRefs, Accept: []string{c.Profile}}})
+			URI: "http://dest", RoutingKeys: routeRefs, Accept: c.accept()}})
 	} else {
 		dest.ServiceEndpoint = commonmodel.NewDIDCommV1Endpoint("http://dest")
 		dest.RoutingKeys = routeRefs
-		dest.MediaTypeProfiles = []string{c.Profile}
+		dest.MediaTypeProfiles = c.accept()
 	}
 
 	senderKey := ""
@@ -673,17 +743,6 @@ func (p *pool) runWrap(kind string, c WrapCase, tr *hx.Trace) {
 	}
 
 	// ---- Coq case
-	packer := "Jwe"
-	if legacyFamily(c.Profile) {
-		packer = "Leg"
-	}
-
-	if c.Auth {
-		packer += "Auth"
-	} else {
-		packer += "Anon"
-	}
-
 	var lvs []string
 
 	for _, lv := range levels {
@@ -711,15 +770,16 @@ func (p *pool) runWrap(kind string, c WrapCase, tr *hx.Trace) {
 		lvs = append(lvs, hx.CoqList(items))
 	}
 
-	coq := fmt.Sprintf("CW {| w_cfg := mkcfg %s %s %s %s; w_prof := %s; w_spar := %s; w_payload := %d; w_sender := %d; "+
-		"w_rcpts := %s; w_routing := %s; w_sent := %s; w_levels := %s |}",
-		packer, coqKT(sk.KT), c.Enc, coqStyle(c.Style), profiles[c.Profile], hx.CoqNList(p.partyKeys(sparty)), payID, senderName,
-		hx.CoqNList(rcptNames), hx.CoqList(hops), hx.CoqBool(sent), hx.CoqList(lvs))
-
-	if c.PayClass == "large" && kind != "corpus" {
-		// nothing size dependent in the model; still checked
-		_ = coq
+	var acc []string
+	for _, a := range c.accept() {
+		acc = append(acc, coqMtp(a))
 	}
+
+	coq := fmt.Sprintf("CW {| w_accept := %s; w_default := %s; w_auth := %s; w_kt := %s; w_enc := %s; w_style := %s; "+
+		"w_spar := %s; w_payload := %d; w_sender := %d; w_rcpts := %s; w_routing := %s; w_sent := %s; w_levels := %s |}",
+		hx.CoqList(acc), coqMtp(c.dflt()), hx.CoqBool(c.Auth), coqKT(sk.KT), c.Enc, coqStyle(c.Style),
+		hx.CoqNList(p.partyKeys(sparty)), payID, senderName,
+		hx.CoqNList(rcptNames), hx.CoqList(hops), hx.CoqBool(sent), hx.CoqList(lvs))
 
 	tr.Put(&hx.Record{Kind: kind, Coq: coq, Case: map[string]interface{}{"wrap": c},
 		Observed: map[string]interface{}{"sent": sent, "send_err": errStr(sendErr), "levels": levels},
@@ -729,7 +789,7 @@ func (p *pool) runWrap(kind string, c WrapCase, tr *hx.Trace) {
 		Trivial: !sent,
 		Dist: []string{"kind:wrap", "profile:" + c.Profile, "kt:" + sk.KT, "enc:" + c.Enc, "style:" + c.Style,
 			fmt.Sprintf("auth:%v", c.Auth), fmt.Sprintf("rcpts:%d", len(c.Rcpts)), fmt.Sprintf("hops:%d", n),
-			fmt.Sprintf("via_mediator:%v", c.ViaMed), "payload:" + c.PayClass}})
+			fmt.Sprintf("via_mediator:%v", c.ViaMed), "payload:" + c.PayClass, fmt.Sprintf("accept_len:%d", len(c.accept()))}})
 }
 
 // hopLeak inspects the plaintext a hop obtained: a forward has the members type, id, to, msg only, and its text
@@ -1145,6 +1205,25 @@ func (p *pool) runRoute(kind string, ops []RouteOp, tr *hx.Trace) {
 func (p *pool) randWrap(r *hx.Rng, viaMed bool) WrapCase {
 	names := profileNames()
 	c := WrapCase{Profile: names[r.Intn(len(names))], ViaMed: viaMed, V2EP: r.Bool()}
+
+	if r.Intn(2) == 0 {
+		// a destination that lists several media type profiles (and ones the dispatcher does not know); the sender's
+		// default is used when none is known
+		pool := append(append([]string{}, names...), "application/unknown", "didcomm/v3")
+		na := r.Intn(5)
+		c.Accept = []string{}
+
+		for i := 0; i < na; i++ {
+			c.Accept = append(c.Accept, pool[r.Intn(len(pool))])
+		}
+
+		c.Default = names[r.Intn(len(names))]
+		c.Profile = effective(c.Accept, c.Default)
+
+		if len(c.Accept) == 0 {
+			c.Accept = []string{"application/unknown"}
+		}
+	}
 	leg := legacyFamily(c.Profile)
 	kt := env.Ed25519
 
